@@ -111,3 +111,9 @@ CHECKS["C04"] = {
   "text": "Up to 30 operations of all six market families and the broker per case, in any reachable state; whenever a call raises (insufficient balance of either token, unsafe health factor / collateral ratio, dust, flag mismatch, zero / invalid argument, unknown position / vault / instrument, closed market, insufficient depth, over-large repay / withdraw / sell) the snapshot (wallet, positions, supplies / debts and flags, vault fields and id counter, option cash / holdings, GLP / GM amounts, last_tick, visible order book, action-log length) must be unchanged; rejected add_liquidity_by_value / even_rebalance / remove_all_liquidity must equal 'before + the constituent transactions that were recorded'. Sampled exploration.",
   "note": "A zero wallet balance equals an absent entry. Memo caches are C13's subject. Negative amounts are outside the domain.",
 }
+
+CHECKS["C03"] = {
+  "technique": "Hypothesis generated operation sequences (programs as data, run-time selectors, boundary / oversized arguments, dependent motifs) on a frozen multi-market universe of real market objects with consistent prices; net-value invariant after every step, exact-conservation and exact-fee classes, non-negativity of every raw holding, cross-check against the independent valuation",
+  "text": "Up to ~40 operations of all six market families and the broker per case against one wallet; after every step, accepted or rejected: net value not up by more than dust; uniswap add / remove / collect and aave supply / withdraw / borrow / repay / flag conserve it; swaps, buys, sells lose exactly the reported fee at the frozen price; helpers lose at most fees; every wallet balance, liquidity, pending amount, scaled supply / debt, vault collateral / short, option cash / amount, GLP, reward, GM >= 0; the broker's net value equals the C01 reference. The two modelled value-raising effects (index-vs-mark revaluation of an LP position held by a vault; GMX v2 positive price impact) are verified against their exact formulas and reported as known findings; anything beyond them is a violation. Sampled exploration.",
+  "note": "Tolerances are tighter than the property's dust unless a wallet balance was emptied (the documented 1e-5 snap). Caller-priced swaps are excluded. Prices agree with the pools' own by construction of the case.",
+}
